@@ -759,3 +759,56 @@ def run_cases(cases, workers=16, hard_timeout=60):
             if now - live[fd][2] > max(hard_timeout, cases[idx].get('timeout', 30) + 15):
                 reap(fd, 'scenario exceeded the hard time limit')
     return results
+
+
+def isolated(fn, args=(), timeout=60):
+    """run fn(*args) in a forked child in its own process group; returns ('ok', result) | ('timeout', None) | ('error', text)"""
+    r, w = os.pipe()
+    pid = os.fork()
+    if pid == 0:
+        code = 0
+        try:
+            os.setpgid(0, 0)
+            os.close(r)
+            try:
+                data = pickle.dumps(('ok', fn(*args)))
+            except BaseException:  # noqa
+                import traceback
+                data = pickle.dumps(('error', traceback.format_exc()))
+            off = 0
+            while off < len(data):
+                off += os.write(w, data[off:off + 65536])
+        finally:
+            os._exit(code)
+    os.close(w)
+    try:
+        os.setpgid(pid, pid)
+    except OSError:
+        pass
+    buf, t0 = [], time.time()
+    res = None
+    while True:
+        rl, _, _ = select.select([r], [], [], 0.5)
+        if rl:
+            chunk = os.read(r, 1 << 16)
+            if not chunk:
+                break
+            buf.append(chunk)
+        if time.time() - t0 > timeout:
+            res = ('timeout', None)
+            break
+    try:
+        os.killpg(pid, signal.SIGKILL)
+    except OSError:
+        pass
+    try:
+        os.waitpid(pid, 0)
+    except OSError:
+        pass
+    os.close(r)
+    if res is None:
+        try:
+            res = pickle.loads(b''.join(buf))
+        except Exception:  # noqa
+            res = ('error', 'no result from the isolated run')
+    return res
